@@ -6,3 +6,5 @@ pub mod wire;
 pub mod srtp_common;
 pub mod c15;
 pub mod sctp_props;
+pub mod dtls_sim;
+pub mod explorer;
